@@ -179,6 +179,8 @@ func checkC01(w *World, r *Report) {
 	c01RuleExecute(w, r, pa)
 	c01HasAuthenticator(w, r, pa, "C01.7")
 	c01Recovery(w, r)
+	c01EvalErrorClass(w, r)
+	c12ExplicitStatus(w, r, "C01.9")
 }
 
 // ---- C01.1 -----------------------------------------------------------------------------------
@@ -1517,4 +1519,84 @@ func firstSliceElem(w *World, v ssa.Value) ssa.Value {
 		return nil
 	}
 	return first
+}
+
+// ---- C01.5b: "condition evaluated to false" versus "condition cannot be evaluated" -------------------
+
+// c01EvalErrorClass: the execution conditions treat one error class (tested with errors.Is against
+// a fresh value of a type) as "evaluated to false => skip the step". The expression evaluator may
+// produce that class only after the evaluation itself succeeded; an evaluation failure must keep
+// its own error so that the step fails.
+func c01EvalErrorClass(w *World, r *Report) {
+	ri := r.Rule("C01.5b", 2, "the 'expression evaluated to false' error class is produced only after a successful evaluation; an evaluation failure is never reported as 'false'")
+	// the class: the type whose fresh value is the errors.Is target in the condition implementations
+	var class types.Type
+	for _, fn := range w.Funcs {
+		if fnPkgPath(fn) != modPath+"/internal/rules" || w.isMockFn(fn) {
+			continue
+		}
+		for _, c := range findCalls(fn, named("errors.Is")) {
+			for _, o := range w.Origins(c.Common().Args[1], nil) {
+				if a, ok := o.(*ssa.Alloc); ok {
+					if n := derefNamed(a.Type()); n != nil && strings.HasSuffix(n.Obj().Pkg().Path(), "/cellib") {
+						class = a.Type()
+					}
+				}
+			}
+		}
+	}
+	if class == nil {
+		r.Undecided(ri, "the error class tested by the execution conditions was not found")
+		return
+	}
+	n := 0
+	for _, fn := range w.Funcs {
+		if !strings.HasSuffix(fnPkgPath(fn), "/cellib") || w.isMockFn(fn) || fn.Parent() != nil {
+			continue
+		}
+		var allocs []*ssa.Alloc
+		eachInstr(fn, func(in ssa.Instruction) {
+			if a, ok := in.(*ssa.Alloc); ok && a.Heap && types.Identical(a.Type(), class) {
+				allocs = append(allocs, a)
+			}
+		})
+		if len(allocs) == 0 || !lastResultIsError(fn.Signature) {
+			continue
+		}
+		r.Analysed(w.FnName(fn))
+		// fallible calls of this function (the evaluation)
+		var evals []*ssa.Call
+		for _, c := range findCalls(fn, func(c *ssa.CallCommon) bool { return lastResultIsError(c.Signature()) }) {
+			evals = append(evals, c)
+		}
+		for _, ret := range returnsOf(fn) {
+			last := ret.Results[len(ret.Results)-1]
+			for _, s := range w.Sources(last, ret.Block()) {
+				isClass := false
+				if mi, ok := s.V.(*ssa.MakeInterface); ok {
+					if a, ok := mi.X.(*ssa.Alloc); ok && types.Identical(a.Type(), class) {
+						isClass = true
+					}
+				}
+				if !isClass && s.Kind != "nil" {
+					continue
+				}
+				n++
+				ok := true
+				for _, e := range evals {
+					if !onlyVia(fn, s.At, nilOf(isResult(e, errIdx(e)))) {
+						ok = false
+					}
+				}
+				what := "'evaluated to false'"
+				if s.Kind == "nil" {
+					what = "success"
+				}
+				r.Ob(ri, w.FnName(fn)+"|"+retKey(w, fn, ret)+"|"+s.Kind, ret.Pos(), ok && len(evals) > 0, "the evaluator reports "+what+" on a path where the evaluation itself failed: a condition that cannot be evaluated would silently skip (or run) the step")
+			}
+		}
+	}
+	if n == 0 {
+		r.Undecided(ri, "no evaluator producing the error class found")
+	}
 }
